@@ -31,7 +31,8 @@ def _balanced(rng, levels, n):
 
 def make_frame(rng, n=None, hostile=False, min_rows=1, max_rows=40, extra_unused=True):
     """rng: numpy Generator.  Returns (DataFrame, meta)."""
-    n = int(rng.integers(min_rows, max_rows + 1)) if n is None else n
+    n_draw = int(rng.integers(min_rows, max_rows + 1))  # always drawn: same stream with or without n
+    n = n_draw if n is None else n
     pools = PLAIN_LEVELS + (HOSTILE_LEVELS if hostile else [])
     meta = {}
     cols = {}
